@@ -53,7 +53,7 @@ func c04panicSite(stack string) string {
 			after = true
 			continue
 		}
-		if !after || !strings.HasPrefix(ln, "github.com/spikeekips/mitum/isaac/states.") || strings.Contains(ln, "c04") {
+		if !after || !strings.HasPrefix(ln, "github.com/spikeekips/mitum/isaac/states.") || strings.HasPrefix(ln, "github.com/spikeekips/mitum/isaac/states.c04") {
 			continue
 		}
 		f := strings.TrimPrefix(ln, "github.com/spikeekips/mitum/isaac/states.")
